@@ -204,4 +204,6 @@ def check(ctx, R):
     R.run("C14.b", rule_b, ctx)
     R.run("C14.c", rule_c, ctx)
     R.run("C14.d", rule_d, ctx)
+    from . import c04 as _c04
+    R.run("C14.e", lambda R, c: _c04.rule_e(R, c, "C14.e"), ctx)
     return extra
